@@ -296,6 +296,47 @@ func genC12(h *H) {
 			}
 		}
 	}
+	// directed search: a hardened child whose PUBLIC key has an x coordinate with two or more leading zero bytes
+	// (2^-16 per node; needs one base-point multiplication per candidate): its compressed serialisation feeds the
+	// fingerprint, the HMAC data of its non-hardened children and Public()
+	{
+		seed3 := h.randBytes(32)
+		ms := h512([]byte("Bitcoin seed"), seed3)
+		kpar := new(big.Int).SetBytes(ms[:32])
+		limit := uint32(250000)
+		if h.budget > 1 {
+			limit = 1500000
+		}
+		data := make([]byte, 37)
+		copy(data[1:], ms[:32])
+		foundX := 0
+		for i := uint32(0); i < limit && foundX < 1+h.budget/4; i++ {
+			idx := 0x80000000 + i
+			binary.BigEndian.PutUint32(data[33:], idx)
+			I := h512(ms[32:], data)
+			c := new(big.Int).SetBytes(I[:32])
+			if c.Sign() == 0 || c.Cmp(curveN) >= 0 {
+				continue
+			}
+			c.Add(c, kpar).Mod(c, curveN)
+			var ks secp.ModNScalar
+			ks.SetByteSlice(be32(c))
+			var pt secp.JacobianPoint
+			secp.ScalarBaseMultNonConst(&ks, &pt)
+			pt.ToAffine()
+			xb := pt.X.Bytes()
+			if xb[0] != 0 || xb[1] != 0 {
+				continue
+			}
+			foundX++
+			for _, p := range [][]uint32{{idx}, {idx, 0}, {idx, 0x80000000}, {idx, 7, 1}} {
+				h.doLine("short-pubkey-x", "bip_derive "+hx(seed3)+" "+pathStr(p)+" -1 "+strings.Join(deriveOracles(seed3, p, -1), " "))
+				if len(p) > 1 {
+					h.doLine("short-pubkey-x", "bip_derive "+hx(seed3)+" "+pathStr(p)+" 1 "+strings.Join(deriveOracles(seed3, p, 1), " "))
+				}
+			}
+		}
+	}
 	// depth 255 refusal: a marshalled key with depth 0xff, then one more child
 	h.doLine("hardened-from-public", "bip_derive "+hx(seed)+" 2147483648 0 "+strings.Join(deriveOracles(seed, []uint32{0x80000000}, 0), " "))
 }
